@@ -632,6 +632,10 @@ def run_step(sem, st):
         return sem.process_event(st[1], st[2] if len(st) > 2 else 'P')
     if st[0] == 'start': sem.start(); return None
     if st[0] == 'stop': sem.stop(); return None
+    if st[0] == 'destroy':      # C20: the machine object is destroyed (and a fresh one constructed in its place)
+        fresh = Conf(sem.prog)
+        sem.c.m = fresh.m; sem.c.started = False; sem.c.queue = []; sem.c.deferred = []; sem.c.unspec = set()
+        return None
     if st[0] == 'enq':          # enqueue_event from outside while idle: stored only
         if not sem.c.started: return None
         sem.c.queue.append((st[1], st[2] if len(st) > 2 else 'P')); return None
